@@ -126,6 +126,7 @@ let rec gx (x : sx) : g =
   | L [A "GroupArr"; L l] -> GroupArr (List.map gx l)
   | L [A "NestedIn"; a] -> NestedIn (gx a)
   | L [A "ExtWrap"; a] -> ExtWrap (gx a)
+  | L [A "Skip"; n] -> Skip (natx n)
   (* text parsers: the derived grammars of coq/Model/Text.v, classes given as token sets *)
   | L [A "TextDigits"; d] -> ToSlice (RepUnit (text_digits (PTokIn (toks d))))
   | L [A "TextInt"; d; nz; z] -> text_int (PTokIn (toks d)) (PTokIn (toks nz)) (n_of_int (num z))
